@@ -33,7 +33,8 @@ type Op struct {
 	T   int           `json:"t,omitempty"`   // target (S, R) or stranger (X)
 	N   int           `json:"n,omitempty"`   // payload size
 	Mod string        `json:"mod,omitempty"` // S: "" | flip | trunc-salt | trunc-tag | badtype | truncaddr | private | loopback | domain | empty | raw:<dst>
-	D   time.Duration `json:"d,omitempty"`   // A
+	D   time.Duration `json:"d,omitempty"`   // A; sub-operations of P: delay before acting
+	Par []Op          `json:"par,omitempty"` // P: operations issued concurrently by separate threads
 }
 
 func (o Op) String() string { b, _ := json.Marshal(o); return string(b) }
@@ -60,6 +61,8 @@ type Step struct {
 	NewSocks    []string // local addresses of sockets the server created during the step
 	ClosedSocks []string
 	Skipped     bool
+	Sub         []*Step // P: what each sub-operation sent
+	ReplyPort   int     // R/X: the server port the reply was addressed to
 }
 
 type Trace struct {
@@ -173,6 +176,11 @@ func Run(cfg Config, ops []Op, tr *Trace) {
 				if c >= 0 {
 					natSock[c] = u
 				}
+				for _, r := range st.TargetRecv {
+					if len(r.Data) >= 2 && int(r.Data[0]) < len(Clients) && r.FromUDP.Port == u.LocalAddr().(*net.UDPAddr).Port {
+						natSock[int(r.Data[0])] = u
+					}
+				}
 			}
 			if openBefore[u] && u.IsClosed() {
 				st.ClosedSocks = append(st.ClosedSocks, u.LocalAddr().String())
@@ -196,6 +204,50 @@ func Run(cfg Config, ops []Op, tr *Trace) {
 			}
 		}
 		switch op.K {
+		case "P":
+			var ts []*vrt.Thread
+			for j, sub := range op.Par {
+				j, sub := j, sub
+				ss := &Step{Op: sub}
+				st.Sub = append(st.Sub, ss)
+				if u := natSock[sub.C]; (sub.K == "R" || sub.K == "X") && u != nil {
+					ss.ReplyPort = u.LocalAddr().(*net.UDPAddr).Port
+				}
+				ts = append(ts, vrt.Spawn(fmt.Sprintf("par%d", j), func() {
+					if sub.D > 0 {
+						vrt.Sleep(sub.D)
+					} else {
+						vrt.Yield("par")
+					}
+					switch sub.K {
+					case "S":
+						key := cfg.Keys[sub.Key]
+						payload := Payload(sub.C, 100+i*10+j, sub.N)
+						plain := append(append([]byte{}, world.Addr(Targets[sub.T])...), payload...)
+						wire := world.PackUDP(key, uint64(1000+i*16+j), plain)
+						ss.Sent, ss.Plain, ss.Dst = wire, payload, Targets[sub.T]
+						w.Sock(Clients[sub.C]).SendRaw(wire, proxy)
+					case "R", "X":
+						if ss.ReplyPort == 0 {
+							ss.Skipped = true
+							return
+						}
+						from := Targets[sub.T%len(Targets)]
+						if sub.K == "X" {
+							from = Strangers[sub.T%len(Strangers)]
+						}
+						payload := Payload(sub.C+8, 100+i*10+j, sub.N)
+						ss.Sent = payload
+						dst := &net.UDPAddr{IP: vw.ProxyIP4, Port: ss.ReplyPort}
+						if world.UDPAddr(from).IP.To4() == nil {
+							dst.IP = vw.ProxyIP6
+						}
+						w.Sock(from).SendRaw(payload, dst)
+					}
+				}))
+			}
+			vrt.Join(ts...)
+			observe(st, -1)
 		case "S":
 			key := Foreign
 			if op.Key >= 0 {
@@ -253,6 +305,7 @@ func Run(cfg Config, ops []Op, tr *Trace) {
 			}
 			payload := Payload(op.C+8, i, op.N)
 			st.Sent = payload
+			st.ReplyPort = u.LocalAddr().(*net.UDPAddr).Port
 			dst := &net.UDPAddr{IP: vw.ProxyIP4, Port: u.LocalAddr().(*net.UDPAddr).Port}
 			if world.UDPAddr(from).IP.To4() == nil {
 				dst.IP = vw.ProxyIP6
